@@ -27,6 +27,13 @@ CHECKS = {
    design_ref='DESIGN.md section 6 / C02',
    technique='Coq proof (invariant over rules and ANPs, refinement to pointwise spec, uniqueness of sorted permutation) + model/implementation correspondence',
    note=TB),
+ 'C03': dict(
+   text="Machine-checked proof (Coq) that the rule walkers `eval` uses (mirrored in Model/EvalPoint.v: ruleConnsContain, anpPortContains, Check{In,E}gressConnAllowed, CheckIfAllowed's direction logic), whenever they answer, "
+        "answer exactly the pointwise semantics, hence exactly membership in the connection set `list` computes for the same peers (for every protocol and port 1..65535, any NetworkPolicy/ANP/BANP set), and that a pod to itself is allowed; "
+        "tied to /repo by running CheckIfAllowed (engine built from objects and engine filled with InsertObject as the CLI does) on all peer pairs x protocols x boundary ports and comparing with the mirror, with the real list of the same directory, and with the real binary on a sample.",
+   design_ref='DESIGN.md section 6 / C03',
+   technique='Coq proof (walker = spec = set membership) + eval/list/model three-way correspondence',
+   note=TB + " Partial: 'where list can analyse, eval must answer' is checked on every generated query (an eval error with a successful list is a violation), not proved. Eight defects found by this check and C15's were repaired by fix: commits (known_findings.json)."),
  'C05': dict(
    text="Machine-checked proof (Coq) that the boolean checker wf_report_b decides well-formedness of a report of any size (one entry per ordered pair, no self or IP-IP pair, no empty connection, canonical "
         "connections with 'all' flagged, IP peers tiling 0.0.0.0-255.255.255.255 disjointly) and that the model's own entries satisfy the per-entry clauses for all inputs; the checker is then run on every "
